@@ -242,7 +242,7 @@ pub fn run(ctx: &Ctx) {
     ctx.rule("lines from all generators with multi-byte words (2-byte Turkish letters, 3-byte CJK and currency signs, 4-byte emoji, combining marks, and - as a separately counted class - characters whose case mapping changes their length: İ ı ß ǅ ﬁ) inserted before, between and after tokens, extra blanks, appended comments with multi-byte text; plus free token soup / Unicode texts; oracle: validity predicate on every line's ui_tokens against the CHARACTER count (0 <= start < end <= n, ordered by start, no overlap) and exactness from the generator's knowledge of where it put things: every plain number literal is covered by a Number token with exactly its span (a magnitude suffix is separate), every operator character by an Operator token of length 1, the comment by one Comment token from '#' to the end of the line; non-trivial = a token starts after a multi-byte character and the line has >= 2 tokens");
     ctx.assume("a sign glued to the following digits belongs to that literal; numbers inside variable definitions/uses are re-labelled by design and not checked for exactness");
     ctx.run_table(&Spans, "regressions", regressions(), false);
-    ctx.run_generated(&Spans, ctx.tier.pick(30_000, 1_000_000), case_strategy);
+    ctx.run_generated(&Spans, ctx.tier.pick(150_000, 1_500_000), case_strategy);
     if ctx.tier == crate::engine::Tier::Thorough {
         crate::fuzzdec::campaign(ctx, "C17", "c17_spans");
     }
